@@ -32,7 +32,7 @@ import (
 	"github.com/valinurovam/garagemq/queue"
 )
 
-var kinds = []string{"table", "method", "header", "frame", "message", "queue", "exchange", "binding", "shortstr", "longstr"}
+var kinds = []string{"table", "method", "header", "frame", "message", "queue", "exchange", "binding", "shortstr", "longstr", "closeerr"}
 
 func proto(d string) string {
 	if d == "091" {
@@ -308,7 +308,7 @@ func decodeKind(kind, d string, data []byte) (res decoded) {
 			return fail(err)
 		}
 		return decoded{"Ok", "CT " + coqTablePtr(t), rd.Len()}
-	case "method":
+	case "method", "closeerr":
 		m, err := amqp.ReadMethod(rd, proto(d))
 		if err != nil {
 			return fail(err)
@@ -445,6 +445,20 @@ func encodeCase(g *gen, kind string) (value string, enc string, raw []byte) {
 		var data []byte
 		data, err = b.Marshal(p)
 		buf.Write(data)
+	case "closeerr":
+		// the close methods the broker builds from its own error values (reply text embeds client-chosen names)
+		text := "queue '" + string(g.bytes(255)) + "' in vhost '" + string(g.bytes(60)) + "'"
+		code := []uint16{amqp.NotFound, amqp.PreconditionFailed, amqp.AccessRefused, amqp.ResourceLocked, amqp.ChannelError, amqp.NotImplemented}[g.r.Intn(6)]
+		var m amqp.Method
+		if g.r.Chance(1, 2) {
+			e := amqp.NewChannelError(code, text, uint16(g.u64(16)), uint16(g.u64(16)))
+			m = &amqp.ChannelClose{ReplyCode: e.ReplyCode, ReplyText: e.ReplyText, ClassID: e.ClassID, MethodID: e.MethodID}
+		} else {
+			e := amqp.NewConnectionError(code, text, uint16(g.u64(16)), uint16(g.u64(16)))
+			m = &amqp.ConnectionClose{ReplyCode: e.ReplyCode, ReplyText: e.ReplyText, ClassID: e.ClassID, MethodID: e.MethodID}
+		}
+		value = coqMethod(m)
+		err = amqp.WriteMethod(buf, m, p)
 	case "shortstr":
 		s := g.bytes(255)
 		value = "CS " + coqH(s)
@@ -533,7 +547,7 @@ func mutate(r *hx.Rng, b []byte, maxlen uint32) ([]byte, string) {
 
 // ---------------------------------------------------------------- cases
 func pickKind(r *hx.Rng) string {
-	w := []int{30, 25, 12, 6, 8, 3, 3, 7, 3, 3}
+	w := []int{30, 25, 12, 6, 8, 3, 3, 7, 3, 3, 3}
 	t := 0
 	for _, x := range w {
 		t += x
